@@ -472,8 +472,17 @@ def engine(chk, prop, replay, groups_fn, rule, gen_fn=None, need_edv=True):
     chk.cov.setdefault("distribution", {}).update(dist)
     chk.cov["disagreements_checked"] = ncodec + ngen
     chk.cov["model_impl_mismatches"] = len(mism)
-    for rep, why in failing[:3]:
-        chk.violation(prop + " fails on the implementation: " + why, rep)
+    # known findings are reported once per class through cls=; anything else is a violation
+    shown = 0
+    for rep, why in failing:
+        cls = why.split(":", 1)[0].strip() if rep.get("level") == "gen" else None
+        if cls is not None and chk.known_finding(cls) is not None:
+            chk.violation(prop + " fails on the implementation: " + why, rep, cls=cls)
+            continue
+        if shown < 3:
+            chk.violation(prop + " fails on the implementation: " + why, rep)
+        shown += 1
+    failing = [f for f in failing if not (f[0].get("level") == "gen" and chk.known_finding(f[1].split(":", 1)[0].strip()) is not None)]
     if not failing:
         if mism:
             chk.violation("correspondence %s broken: model and implementation disagree (%d cases) but the property "
